@@ -183,7 +183,7 @@ func c15() {
 	}
 
 	// valid policies: the target observes exactly the policy's decisions
-	n := run.N(60, 1500)
+	n := run.N(200, 3000)
 	vlib.Parallel(n, func(i int) {
 		r := caseRand(run, 1+i)
 		style := []int{0, 0, 1, 2}[i%4]
